@@ -172,12 +172,73 @@ func (g goRes) term(rd *renderer) string {
 }
 
 func fromNet(mh *v2.MessageHandler, input []byte) (g goRes) {
+	return fromNetR(mh, bytes.NewReader(input))
+}
+
+// dribble yields 1, 2, 3, 1, 2, 3 ... bytes per Read
+type dribble struct {
+	b    []byte
+	i, k int
+}
+
+func (d *dribble) Read(p []byte) (int, error) {
+	if d.i >= len(d.b) {
+		return 0, io.EOF
+	}
+	n := d.k%3 + 1
+	d.k++
+	if n > len(p) {
+		n = len(p)
+	}
+	if n > len(d.b)-d.i {
+		n = len(d.b) - d.i
+	}
+	copy(p, d.b[d.i:d.i+n])
+	d.i += n
+	return n, nil
+}
+
+// allAtOnce hands out as much as the caller's buffer takes
+type allAtOnce struct {
+	b []byte
+	i int
+}
+
+func (a *allAtOnce) Read(p []byte) (int, error) {
+	if a.i >= len(a.b) {
+		return 0, io.EOF
+	}
+	n := copy(p, a.b[a.i:])
+	a.i += n
+	return n, nil
+}
+
+// streamReaders: the kinds of io.Reader a stream of messages is read from by successive FromNet calls
+func streamReaders(all []byte) []io.Reader {
+	return []io.Reader{bytes.NewBuffer(append([]byte(nil), all...)), &dribble{b: all}, &allAtOnce{b: all}}
+}
+
+// fromNetSeq calls FromNet on the SAME reader until a call does not return a message (that result is
+// included), at most max times
+func fromNetSeq(mh *v2.MessageHandler, r io.Reader, max int) []goRes {
+	var out []goRes
+	for i := 0; i < max; i++ {
+		g := fromNetR(mh, r)
+		out = append(out, g)
+		if g.kind != "msg" {
+			break
+		}
+	}
+	return out
+}
+
+func fromNetR(mh *v2.MessageHandler, r io.Reader) (g goRes) {
 	defer func() {
 		if p := recover(); p != nil {
 			g = goRes{kind: "panic", what: fmt.Sprint(p)}
 		}
 	}()
-	m, err := mh.FromNet(thePeer, bytes.NewReader(input))
+	m, err := mh.FromNet(thePeer, r)
 	if err == io.EOF {
 		return goRes{kind: "eof"}
 	}
@@ -317,7 +378,7 @@ func runCodec(c *drv.Ctx) error {
 	w.Stats.Rule = "1-4 messages per case (requests new/cancel/update, all priorities boundaries, root present/absent, selector nil/common/random, " +
 		"0-3 extensions per part with nil/Null/random nested data and the three typed extensions through their real encoders, every defined status code, " +
 		"0-5 metadata entries with all four actions, 0-3 blocks over CIDv0/v1, sha2-256/512/identity/truncated, empty message; a third through message.Builder; " +
-		"3% with an undefined status that ToNet must refuse) built with the real constructors, real v2 ToNet, real FromMsgReader on the concatenation and FromNet on the first frame; " +
+		"3% with an undefined status that ToNet must refuse) built with the real constructors, real v2 ToNet, real FromMsgReader on the concatenation, successive FromNet calls on one bytes.Buffer / few-bytes-per-Read / all-at-once reader over the concatenation, and FromNet on the first frame; " +
 		"non-trivial = some request/response has an extension or metadata, or there is a block; distinct = distinct terms"
 	mh := v2.NewMessageHandler()
 	extChecked, extBad := 0, 0
@@ -352,7 +413,7 @@ func runCodec(c *drv.Ctx) error {
 			all = append(all, b...)
 		}
 		tags := append([]string{"kind:" + kind}, cc.Tags...)
-		var goTerms []string
+		var goTerms, seqTerms []string
 		var violations [][2]string
 		if !encOK {
 			all = nil
@@ -377,6 +438,20 @@ func runCodec(c *drv.Ctx) error {
 			}
 			for _, g := range results {
 				goTerms = append(goTerms, g.term(rd))
+			}
+			// the same stream read by successive FromNet calls on one reader, for three kinds of reader
+			for _, sr := range streamReaders(all) {
+				var ts []string
+				for _, g := range fromNetSeq(mh, sr, len(built)+1) {
+					if g.kind == "msg" {
+						orc.addMsg(g.msg)
+					}
+					if g.kind == "panic" {
+						violations = append(violations, [2]string{"panic in FromNet: " + g.what, "panic"})
+					}
+					ts = append(ts, g.term(rd))
+				}
+				seqTerms = append(seqTerms, cw.List(ts))
 			}
 			// FromNet on the first frame alone must agree with the first FromMsgReader result
 			f := fromNet(mh, first)
@@ -413,7 +488,7 @@ func runCodec(c *drv.Ctx) error {
 		for _, d := range cc.Msgs {
 			nontrivial = nontrivial || d.nontrivial()
 		}
-		term := fmt.Sprintf("(mk_ccase %s %s %s\n    %s\n    %s)", cw.List(builtTerms), cw.Bool(encOK), hx(all), cw.List(goTerms), orc.term())
+		term := fmt.Sprintf("(mk_ccase %s %s %s\n    %s\n    %s\n    %s)", cw.List(builtTerms), cw.Bool(encOK), hx(all), cw.List(goTerms), cw.List(seqTerms), orc.term())
 		idx := w.Add(term, cc, nontrivial, tags...)
 		for _, v := range violations {
 			what := v[0]
